@@ -673,6 +673,16 @@ def execute(case, want_output=True):
     except BaseException as e:  # noqa: BLE001
         res["final"] = exc_class(e)
     res["final_maps"] = named_maps(env)
+    # a TensorDictParams used as `params` must still expose exactly its leaves after the blocks (exit writes into it)
+    res["tdp_registration"] = []
+    for bi, p_ in enumerate(params):
+        if isinstance(p_, T["TensorDictParams"]) and res["blocks"][bi].get("enter") == "ok":
+            reg = {nm: t for nm, t in p_.named_parameters(remove_duplicate=False)}
+            reg.update({nm: t for nm, t in p_.named_buffers(remove_duplicate=False)})
+            leaves = dict(flat_td(p_))
+            bad = sorted(k for k in set(reg) | set(leaves) if reg.get(k) is not leaves.get(k))
+            if bad:
+                res["tdp_registration"].append((bi, bad))
     res["ptrace"] = [describe_td(env, p) for p in params]
     return res
 
@@ -726,6 +736,28 @@ def expected_slot_values(case):
         walk(blk["target"], blk["p"])
         slots.update(local)
     return slots, ambiguous
+
+
+def actual_memo_slots(case):
+    """(mid, name) -> tid under tensordict's actual rule: a sub-module met again (memo hit) is skipped with its whole
+    sub-tree, whatever the second name supplies"""
+    spec = case["spec"]
+    slots = {}
+    for blk in case["blocks"]:
+        seen, local = set(), {}
+
+        def walk(mid, ents):
+            m = spec["mods"][mid]
+            seen.add(mid)
+            subs = dict((a, b) for a, b in m["subs"])
+            for n, x in ents:
+                if isinstance(x, int):
+                    local[(mid, n)] = x
+                elif subs.get(n) is not None and m["ty"] != "tdp" and subs[n] not in seen:
+                    walk(subs[n], x)
+        walk(blk["target"], blk["p"])
+        slots.update(local)
+    return slots
 
 
 def slots_of_block(case, blk):
@@ -807,33 +839,32 @@ def classify_restore_failure(case, res, i, value_level=False):
     d = diff_maps(B["before"], B["after"])
     base = {"call": "to_module as context manager"}
     untouched = "pre_exit" in B and same_maps(B["pre_exit"], B["after"]) and same_vals(B["pre_exit"], B["after"])
-    if B.get("body_kind") == "exception" and untouched and not blk["manual"]:
-        # __exit__ saw an Exception and returned without inverting: the module is exactly as it was inside the block
-        return [(dict(base, defect="exit-on-exception-skips-restore", site="TensorDictBase.__exit__"), sorted(d))]
-    if blk["swap_dest"] and B.get("exit") == "TypeError" and untouched and B.get("body_kind") in ("ok", "base") and not blk["manual"]:
+    if blk["swap_dest"] and B.get("exit") == "TypeError" and untouched and not blk["manual"]:
+        # the inverse was attempted (whatever the body did) and died on the repeated keyword before touching the module
         return [(dict(base, defect="swap_dest-kwarg-repeated-on-exit", site="_contextlib._reverse_to_module"), sorted(d))]
+    if B.get("body_kind") == "exception" and untouched and B.get("exit") == B.get("body") and not blk["manual"]:
+        # __exit__ saw an Exception and returned without inverting: the module is exactly as it was inside the block and
+        # the body's exception propagates unchanged
+        return [(dict(base, defect="exit-on-exception-skips-restore", site="TensorDictBase.__exit__"), sorted(d))]
     if value_level:
-        if tied_inplace(case, i) and B.get("body_kind") in ("ok", "base"):
+        if tied_inplace(case, i):
             return [(dict(base, defect="inplace-tied-values-not-restored", site="_td._set_tensor_dict"), [])]
         return [(dict(base, defect="other-values"), [])]
     pats = {}
-    if B.get("body_kind") in ("ok", "base"):
-        env = res["env"]
-        for n, (wa, wb, same) in d.items():
-            before_obj = B["before"][0].get(n, B["before"][1].get(n))
-            inside_obj = B["inside"][0].get(n, B["inside"][1].get(n))
-            now = B["after_resolved"].get(n)
-            rewrapped = (blk["usd"] and isinstance(now, T["torch"].Tensor) and now is not before_obj
-                         and kind_of(before_obj) in ("P", "B") and kind_of(now) == kind_of(before_obj)
-                         and now.data_ptr() == before_obj.data_ptr())
-            if wa == "buffer" and wb is None and (now is before_obj or rewrapped) and kind_of(inside_obj) == "P":
-                pats.setdefault("buffer-slot-given-Parameter", []).append(n)
-            elif wa == wb and wa is not None and rewrapped:
-                pats.setdefault("use_state_dict-rewraps-parameters", []).append(n)
-            else:
-                pats.setdefault("other", []).append(n)
-    else:
-        pats["other"] = sorted(d)
+    env = res["env"]
+    for n, (wa, wb, same) in d.items():
+        before_obj = B["before"][0].get(n, B["before"][1].get(n))
+        inside_obj = B["inside"][0].get(n, B["inside"][1].get(n))
+        now = B["after_resolved"].get(n)
+        rewrapped = (blk["usd"] and isinstance(now, T["torch"].Tensor) and now is not before_obj
+                     and kind_of(before_obj) in ("P", "B") and kind_of(now) == kind_of(before_obj)
+                     and now.data_ptr() == before_obj.data_ptr())
+        if wa == "buffer" and wb is None and (now is before_obj or rewrapped) and kind_of(inside_obj) == "P":
+            pats.setdefault("buffer-slot-given-Parameter", []).append(n)
+        elif wa == wb and wa is not None and rewrapped:
+            pats.setdefault("use_state_dict-rewraps-parameters", []).append(n)
+        else:
+            pats.setdefault("other", []).append(n)
     sites = {"buffer-slot-given-Parameter": "_td._set_tensor_dict", "use_state_dict-rewraps-parameters": "_td.TensorDict._to_module"}
     return [(dict(base, defect=k, **({"site": sites[k]} if k in sites else {})), v) for k, v in sorted(pats.items())]
 
@@ -882,6 +913,13 @@ def check_oracle(R, case, res):
             tainted = True
             R.count("oracle:not-applicable(entry failed or manual swap-back abandoned)")
             continue
+        if blocks[i]["manual"]:
+            # a hand-written swap-back (`swap.to_module(m, return_swap=False)`) is not a with-block: the property does
+            # not speak about it; it is kept for the model correspondence only. What it leaves behind is the user's.
+            R.count("oracle:not-applicable(manual swap-back)")
+            if not same_maps(B["before"], B["after"]):
+                tainted = True
+            continue
         if first_fail is not None or tainted:
             break
         R.count("oracle:restore-checked:" + B.get("body_kind", "?"))
@@ -897,6 +935,12 @@ def check_oracle(R, case, res):
                 first_fail = i
                 for sig, _ in classify_restore_failure(case, res, i, value_level=True):
                     R.oracle_fail("restore:values", small, {"block": i, "names": vd, "body": B.get("body")}, sig)
+    for bi, bad in res.get("tdp_registration", []):
+        nested_only = all("." in k for k in bad)
+        sig = {"call": "TensorDictParams update", "defect": "nested-handle-bypasses-registration" if nested_only else "other"}
+        if nested_only:
+            sig["site"] = "nn/params.py: writes through tdparams[key] reach _param_td without _reset_params"
+        R.oracle_fail("tdparams:registration", small, {"block": bi, "names": bad, "via": "to_module exit (_quick_set)"}, sig)
     # (2) inside the innermost block the module computes with the supplied values
     if res["output"] is not None and all(res["blocks"][i].get("enter") == "ok" for i in range(len(blocks))):
         slots, ambiguous = expected_slot_values(case)
@@ -923,8 +967,19 @@ def check_oracle(R, case, res):
                 R.count("oracle:output-compared")
                 y = res["output"]
                 if y.shape != ref.shape or not torch.equal(y, ref):
-                    R.oracle_fail("inside:output", small, {"got": y.tolist(), "functional_call": ref.tolist()},
-                                  {"call": "to_module as context manager", "defect": "output-differs"})
+                    sig = {"call": "to_module as context manager", "defect": "output-differs"}
+                    act = actual_memo_slots(case)
+                    if act != slots and set(act.items()) <= set(slots.items()):
+                        # values supplied only under the second name of a shared sub-module (or below it): is the output
+                        # the one computed without exactly those values?
+                        try:
+                            ref2 = reference_output(case, act)
+                            if y.shape == ref2.shape and torch.equal(y, ref2):
+                                sig = {"call": "to_module as context manager", "site": "_td.TensorDict._to_module (memo)",
+                                       "defect": "entries-under-second-name-of-shared-submodule-ignored"}
+                        except Exception:  # noqa: BLE001
+                            pass
+                    R.oracle_fail("inside:output", small, {"got": y.tolist(), "functional_call": ref.tolist()}, sig)
 
 
 # ====================================================================== model side
@@ -1090,6 +1145,16 @@ def run_programs(R, have_model):
                 pending.append((case, canon_trace(res["trace"]), model_line(case, res)))
                 R.count("model:in-scope")
     if have_model and pending:
+        # how many generated cases lie inside the domain of the program theorems (wf_heapb, block_okb evaluated by the
+        # extracted definitions themselves)
+        scopes = run_model([p[2].replace("(prog ", "(scope ", 1) for p in pending])
+        for (case, _, _), sc in zip(pending, scopes):
+            if isinstance(sc, list) and len(sc) == 3:
+                inside = sc[0] == "t" and sc[1] == "t"
+                kind = case["exc"]["kind"]
+                R.count("theorem-domain:" + ("inside" if inside else "outside") + ":" + ("no-exception" if kind == "none" else kind))
+                if sc[2] != "t":
+                    R.count("theorem-domain:names-not-unique")
         outs = run_model([p[2] for p in pending])
         for (case, itrace, _), m in zip(pending, outs):
             R.traces += 1
@@ -1255,6 +1320,7 @@ KEYS_C = ["a", "b", "c", "n", "m"]
 
 def gen_tdp_case(rng):
     tens = []
+    spelling = rng.randrange(0, 3)
 
     def newt():
         k = rng.choice(["T", "T", "P", "B"])
@@ -1338,7 +1404,11 @@ def gen_tdp_case(rng):
             if not ok:
                 continue
             t = newt()
-            ops.append(["set", path, t])
+            # tdparams.update({k: {...}}) with k an existing sub-tensordict recurses into the plain nested TensorDict:
+            # the tensor is stored as it is (no Parameter/Buffer conversion); every other spelling converts
+            top = dict((a, b) for a, b in cur)
+            conv = not (spelling == 2 and len(path) > 1 and isinstance(top.get(path[0]), list))
+            ops.append(["set", path, t, conv])
             sh_set(path, t)
         elif r < 0.5 and leaves:
             path = list(rng.choice(leaves + subs))
@@ -1368,7 +1438,7 @@ def gen_tdp_case(rng):
                 ops.append(["ndel", path, k])
                 sh_del(path + [k])
     return {"kind": "tdparams", "tens": tens, "init": init, "ops": ops, "no_convert": rng.random() < 0.3,
-            "spelling": rng.randrange(0, 3)}
+            "spelling": spelling}
 
 
 def exec_tdp(case):
@@ -1489,7 +1559,8 @@ def tdp_model_line(case, init_desc):
     for op in case["ops"]:
         if op[0] == "set":
             d = case["tens"][op[2]]
-            ops.append([Sym("set"), list(op[1]), [Sym("k"), op[2], Sym(d["k"]), 0, 0], Sym("t") if d["f"] else Sym("f")])
+            ops.append([Sym("set"), list(op[1]), [Sym("k"), op[2], Sym(d["k"]), 0, 0], Sym("t") if d["f"] else Sym("f"),
+                        Sym("t") if op[3] else Sym("f")])
         elif op[0] == "del":
             ops.append([Sym("del"), list(op[1])])
         elif op[0] == "rename":
@@ -1543,6 +1614,107 @@ def run_tdparams(R, have_model):
                            {"model": mo[first] if first >= 0 else mo})
 
 
+# ====================================================================== stream D: batched parameters under torch.vmap
+def exec_vmap(case):
+    """`torch.vmap(lambda p, x: (with p.to_module(root): root(x)))` over a stack of parameter sets"""
+    T = _imports()
+    torch = T["torch"]
+    env = build(case)
+    env.fresh, env.fresh_list, env.stor = {}, [], {}
+    blk = case["blocks"][0]
+    nb = case["batch"]
+    tds = []
+    for i in range(nb):
+        def lv(l, i=i):
+            out = {}
+            for n, x in l:
+                if isinstance(x, int):
+                    d = case["spec"]["tens"][x]
+                    dt = torch.int64 if d["sh"] == "s" else torch.float64
+                    out[n] = torch.full(SHAPES[d["sh"]], d["v"] + i, dtype=dt)
+                else:
+                    out[n] = lv(x)
+            return out
+        tds.append(T["TensorDict"](lv(blk["p"]), batch_size=[]))
+    ps = torch.stack(tds)
+    x = torch.tensor([[1.0, 2.0], [3.0, 4.0], [5.0, 6.0]], dtype=torch.float64)
+    before = named_maps(env)
+    obs = {"before": before, "pre_exit": None}
+    target = env.mods[blk["target"]]
+
+    def f(p, xx):
+        with p.to_module(target):
+            try:
+                if case["exc"]["kind"] == "exc":
+                    raise T["Inject"]("injected")
+                with torch.no_grad():
+                    return env.root(xx)
+            finally:
+                ps_ = {n: q for n, q in env.root.named_parameters(remove_duplicate=False)}
+                bs_ = {n: q for n, q in env.root.named_buffers(remove_duplicate=False)}
+                obs["pre_exit"] = (ps_, bs_, {})
+    out, err = None, None
+    try:
+        out = torch.vmap(f, (0, None))(ps, x)
+    except BaseException as e:  # noqa: BLE001
+        err = e
+    after = named_maps(env)
+    return env, before, obs["pre_exit"], after, out, err
+
+
+def run_vmap(R):
+    T = _imports()
+    torch = T["torch"]
+    rng = R.rng
+    n = 60 if R.quick else 1500
+    done = 0
+    for _ in range(n * 3):
+        if done >= n:
+            break
+        spec = gen_tree(rng, rich=False)
+        if any(spec["mods"][m]["ty"] in ("bn", "tdm") for m in reachable(spec)):
+            continue
+        done += 1
+        blk = {"target": 0, "mode": "data", "inplace": None, "usd": False, "as": "td", "swap_dest": False, "manual": False,
+               "p": gen_pspec(rng, spec, 0, "data", consistent=True)}
+        case = {"spec": spec, "blocks": [blk], "exc": {"kind": rng.choice(["none", "none", "exc"])}, "vmap": True,
+                "batch": rng.choice([1, 2, 3])}
+        try:
+            env, before, pre_exit, after, out, err = exec_vmap(case)
+        except Exception as e:  # noqa: BLE001
+            R.count("harness:vmap-error:" + type(e).__name__)
+            continue
+        R.case(case_key(case), nontrivial=len(flatten_ents(blk["p"])) >= 2,
+               sample={"modules": [m["ty"] for m in spec["mods"]], "vmap_batch": case["batch"], "exc": case["exc"]})
+        R.count("vmap:" + case["exc"]["kind"])
+        if not same_maps(before, after):
+            sig = {"call": "to_module as context manager", "defect": "other"}
+            if (case["exc"]["kind"] == "exc" and isinstance(err, T["Inject"]) and pre_exit is not None
+                    and same_maps(pre_exit, after)):
+                sig = {"call": "to_module as context manager", "defect": "exit-on-exception-skips-restore",
+                       "site": "TensorDictBase.__exit__"}
+            R.oracle_fail("restore:identity", case, {"under": "torch.vmap", "changed": diff_maps(before, after),
+                                                      "raised": type(err).__name__ if err is not None else None}, sig)
+        if case["exc"]["kind"] == "none":
+            if err is not None:
+                R.count("vmap:raised:" + type(err).__name__)  # functorch's restrictions, not the property
+                continue
+            slots, ambiguous = expected_slot_values(case)
+            if ambiguous:
+                continue
+            refs = []
+            for i in range(case["batch"]):
+                ci = copy.deepcopy(case)
+                for t in set(slots.values()):
+                    ci["spec"]["tens"][t]["v"] += i
+                refs.append(reference_output(ci, slots))
+            ref = torch.stack(refs)
+            R.count("oracle:vmap-output-compared")
+            if out.shape != ref.shape or not torch.equal(out, ref):
+                R.oracle_fail("inside:output", case, {"under": "torch.vmap", "got": out.tolist(), "functional_call": ref.tolist()},
+                              {"call": "to_module as context manager", "defect": "output-differs"})
+
+
 # ====================================================================== main / replay (streams B, C are appended below)
 def main(R):
     R.rule = ("a case = (module DAG, nested to_module blocks, injection point); distinct by its JSON; non-trivial when the "
@@ -1556,12 +1728,65 @@ def main(R):
     run_programs(R, ok)
     run_from_module(R, ok)
     run_tdparams(R, ok)
+    run_vmap(R)
 
 
 def replay(body):
-    case = body["case"]
-    res = execute(case)
-    print("final:", res["final"])
-    for ev in canon_trace(res["trace"]):
-        print("impl ", json.dumps(ev))
+    """re-executes one recorded case against the implementation, the model and the oracle; prints the three observations"""
+    from . import core
+    _imports()
+    if body.get("kind") == "no-failing-input-found":
+        cases = [u.get("case") for u in body.get("no_longer_checks", []) if u.get("case")]
+        for u in body.get("no_longer_checks", []):
+            if "case" not in u:
+                print("no longer shown:", json.dumps(u)[:2000])
+    else:
+        cases = [body["case"]]
+        print("recorded:", body.get("check"), json.dumps(body.get("signature")), json.dumps(body.get("detail"), default=str)[:1500])
+    have_model = core.build_driver(PID)[0]
+    for case in cases:
+        R = core.Run(PID, "quick", 0)
+        if case.get("kind") == "from_module" or case.get("kind") == "tdparams":
+            if case["kind"] == "tdparams":
+                obs, verdicts, init_desc, env = exec_tdp(case)
+                for j, (o, (ok, why)) in enumerate(zip(canon_simple(obs), verdicts)):
+                    print("impl  step", j, json.dumps(o), "| registration exact:", ok, json.dumps(why) if not ok else "")
+                if have_model:
+                    m = run_model([tdp_model_line(case, init_desc)])[0]
+                    for j, x in enumerate(m if isinstance(m, list) else [m]):
+                        print("model step", j, json.dumps(canon_simple(x)))
+            else:
+                T = _imports()
+                env = build({"spec": case["spec"]})
+                env.fresh, env.fresh_list, env.stor = {}, [], {}
+                kw = {"plain": {}, "lock": {"lock": True}, "as_module": {"as_module": True}, "state_dict": {"use_state_dict": True}}[case.get("variant", "plain")]
+                try:
+                    td = T["TensorDict"].from_module(env.root, **kw)
+                    print("impl  from_module keys:", sorted(k for k, _ in flat_td(td)))
+                except Exception as e:  # noqa: BLE001
+                    print("impl  from_module raised", type(e).__name__, e)
+                print("named_parameters:", [n for n, _ in env.root.named_parameters(remove_duplicate=False)])
+                print("named_buffers:   ", [n for n, _ in env.root.named_buffers(remove_duplicate=False)])
+            continue
+        if case.get("vmap"):
+            env, before, pre_exit, after, out, err = exec_vmap(case)
+            print("impl  under torch.vmap: raised", type(err).__name__ if err is not None else None,
+                  "| restored:", same_maps(before, after), "| changed:", json.dumps(diff_maps(before, after)))
+            continue
+        res = execute(case)
+        print("final outcome:", res["final"])
+        itrace = canon_trace(res["trace"])
+        for ev in itrace:
+            print("impl ", json.dumps([ev[0], ev[1], impl_outcome_enum(ev[2]), ev[3]]))
+        if have_model and model_ok_tree(case["spec"]) and not res["final"].startswith("build:"):
+            m = model_trace(run_model([model_line(case, res)])[0])
+            for ev in (m if isinstance(m, list) else [m]):
+                print("model", json.dumps(ev))
+            it = [[ev, lvl, impl_outcome_enum(o), snap] for ev, lvl, o, snap in itrace]
+            print("model == implementation:", m == it)
+        check_oracle(R, case, res)
+        if not R.oracle_failures:
+            print("oracle: holds on this case")
+        for (label, c, detail, sig) in R.oracle_failures:
+            print("oracle FAILS:", label, json.dumps(sig), json.dumps(detail, default=str)[:1500])
     return 0
